@@ -3,8 +3,8 @@
 # Imports a sub-agent's seeded change from /tmp/seed/<ID> into /verif/seeded/<ID>/, confirms the demonstration
 # (passes on /repo HEAD, fails with the patch) in a scratch worktree, and runs the named checks against it.
 ID="$1"; shift
-SRC=/tmp/seed/$ID
-DST=/verif/seeded/$ID
+SRC=${SEEDROOT:-/tmp/seed}/$ID
+DST=/verif/seeded/$ID${SUFFIX:-}
 mkdir -p "$DST"
 [ -s "$DST/patch.diff" ] || ( cd "$SRC" && git diff -- src > "$DST/patch.diff" )
 cp "$SRC"/demo_*.py "$DST/" 2>/dev/null
